@@ -627,7 +627,7 @@ func poolCount(p *config.Pool) (int64, int64, int64) {
 		}
 		sz := int64(math.Pow(2, float64(b-o)))
 
-		cur := ipaddr.NewCursor([]ipaddr.Prefix{*ipaddr.NewPrefix(cidr)})
+		cur := ipaddr.NewCursor([]ipaddr.Prefix{*newPrefix(cidr)})
 		firstIP := cur.First().IP
 		lastIP := cur.Last().IP
 
@@ -666,6 +666,14 @@ func addSaturating(a, b int64) int64 {
 		return math.MaxInt64
 	}
 	return a + b
+}
+
+// newPrefix returns the ipaddr prefix for cidr. ipaddr.NewPrefix rewrites the
+// IP of the net.IPNet it is given in its 16 byte form; cidr belongs to the
+// configuration, which must not change under the feet of whoever compares it
+// with a newly computed one, so it is handed a copy.
+func newPrefix(cidr *net.IPNet) *ipaddr.Prefix {
+	return ipaddr.NewPrefix(&net.IPNet{IP: cidr.IP, Mask: cidr.Mask})
 }
 
 // poolFor returns the pool that owns the requested IPs, or "" if none.
@@ -707,7 +715,7 @@ func (a *Allocator) getIPFromCIDR(cidr *net.IPNet, avoidBuggyIPs bool, svc strin
 		sharing: sharingKey,
 		backend: backendKey,
 	}
-	c := ipaddr.NewCursor([]ipaddr.Prefix{*ipaddr.NewPrefix(cidr)})
+	c := ipaddr.NewCursor([]ipaddr.Prefix{*newPrefix(cidr)})
 	for pos := c.First(); pos != nil; pos = c.Next() {
 		if avoidBuggyIPs && ipConfusesBuggyFirmwares(pos.IP) {
 			continue
